@@ -8,6 +8,7 @@ import (
 	"os"
 	"path/filepath"
 	"runtime"
+	"strings"
 	"sync"
 	"sync/atomic"
 	"time"
@@ -91,6 +92,17 @@ func (s *cancelStore) StoreLogs(ls []*raft.Log) error {
 		return s.injected
 	}
 	return s.LogStore.StoreLogs(ls)
+}
+
+// the first wait for a channel that is never closed is generous (a verdict by watchdog);
+// once one has been seen the run is failing anyway and later cases wait less
+var c19HangSeen atomic.Bool
+
+func c19HangWait() time.Duration {
+	if c19HangSeen.Load() {
+		return 2 * time.Second
+	}
+	return 60 * time.Second
 }
 
 type c19Case struct {
@@ -178,12 +190,18 @@ func c19Run(c *evid.Ctx, cs c19Case) {
 	var drained sync.WaitGroup
 	closed := make(chan struct{})
 	switch cs.Progress {
-	case "unbuffered":
+	case "unbuffered", "unbuffered-late":
 		progress = make(chan string)
 	case "buffered":
 		progress = make(chan string, 1024)
+	case "full-late":
+		progress = make(chan string, 1)
+		progress <- "stale"
 	}
-	if progress != nil {
+	// "-late": nobody receives while the copy runs (every update finds the channel not
+	// ready); the consumer starts ranging only after CopyLogs has returned
+	late := strings.HasSuffix(cs.Progress, "-late")
+	startDrain := func() {
 		drained.Add(1)
 		go func() {
 			defer drained.Done()
@@ -192,6 +210,9 @@ func c19Run(c *evid.Ctx, cs c19Case) {
 			close(closed)
 		}()
 	}
+	if progress != nil && !late {
+		startDrain()
+	}
 	injected := errors.New("injected store failure")
 	ws := &cancelStore{LogStore: src, cancel: cancel, atGet: cs.CancelGet, injected: injected}
 	wd := &cancelStore{LogStore: dst, cancel: cancel, atStore: cs.CancelPut, failAt: cs.FailPut, injected: injected}
@@ -199,11 +220,15 @@ func c19Run(c *evid.Ctx, cs c19Case) {
 	c.Distinct("copy_classes", fmt.Sprintf("%s->%s|n=%s|first=%s|batch=%s|sizes=%s|cancel=%v|fail=%v", cs.Src, cs.Dst, nClass(cs.N), firstClass(cs.First), cs.BatchClass+batchAbs(cs.BatchBytes, cs.BatchClass), cs.Sizes, cs.CancelGet+cs.CancelPut > 0, cs.FailPut > 0))
 	replay := map[string]any{"case": cs, "batch_bytes": bb}
 	err = migrate.CopyLogs(ctx, wd, ws, bb, progress)
+	if late {
+		startDrain()
+	}
 	if progress != nil {
 		// "the progress channel is always closed on return": the drainer must finish
 		select {
 		case <-closed:
-		case <-time.After(60 * time.Second):
+		case <-time.After(c19HangWait()):
+			c19HangSeen.Store(true)
 			c.Violation("C19:progress-not-closed", "CopyLogs returned but the progress channel was not closed", replay)
 			close(progress)
 		}
@@ -338,7 +363,7 @@ func runC19(c *evid.Ctx) {
 		default:
 			cs.BatchBytes = 100 + rng.Intn(5000)
 		}
-		cs.Progress = []string{"nil", "unbuffered", "buffered"}[rng.Intn(3)]
+		cs.Progress = []string{"nil", "unbuffered", "buffered", "unbuffered-late", "full-late"}[rng.Intn(5)]
 		if cs.N > 0 {
 			switch rng.Intn(8) {
 			case 0:
@@ -413,15 +438,30 @@ func c19Stable(c *evid.Ctx, rng *rand.Rand) {
 		dst.SetUint64([]byte("CurrentTerm"), 7)
 		var progress chan string
 		closed := make(chan struct{})
-		if rng.Intn(2) == 0 {
+		lateStable := false
+		switch rng.Intn(4) {
+		case 0:
 			progress = make(chan string, 64)
+		case 1:
+			// unbuffered, and nobody receives until CopyStable has returned
+			progress = make(chan string)
+			lateStable = true
+		}
+		drain := func() {
 			go func() {
 				for range progress {
 				}
 				close(closed)
 			}()
 		}
+		if progress != nil && !lateStable {
+			drain()
+		}
 		err = migrate.CopyStable(context.Background(), dst, src, extraK, extraI, progress)
+		if lateStable {
+			drain()
+			c.Distinct("copy_classes", "stable|progress consumer starts after return")
+		}
 		c.Count("stable_copies", 1)
 		c.Count("copies", 1)
 		c.Distinct("copy_classes", fmt.Sprintf("stable:%s->%s|extra=%d,%d", sk, dk, len(extraK), len(extraI)))
@@ -429,7 +469,8 @@ func c19Stable(c *evid.Ctx, rng *rand.Rand) {
 		if progress != nil {
 			select {
 			case <-closed:
-			case <-time.After(60 * time.Second):
+			case <-time.After(c19HangWait()):
+				c19HangSeen.Store(true)
 				c.Violation("C19:stable-progress-not-closed", "CopyStable returned but the progress channel was not closed", replay)
 			}
 		}
